@@ -69,7 +69,9 @@ type Backend struct {
 	trace []memstore.Call
 	nTx   int
 	// store-call faults (memstore.Fault semantics, delivered through the SQL driver)
-	fault       *memstore.Fault
+	faults      []memstore.Fault // the plan (one-shot faults, each at its own call number)
+	faultsFired []bool
+	cur         *memstore.Fault // the planned fault delivered at the call being executed
 	calls       int
 	fired       bool
 	commitArmed bool
@@ -173,17 +175,39 @@ func (b *Backend) RootStore(name string) ledgercontroller.Store {
 	return &tstore{b: b, inner: systemcontroller.NewDefaultStoreAdapter(b.Stores[name]), name: "root"}
 }
 
-func (b *Backend) InjectFault(f memstore.Fault) {
+func (b *Backend) InjectFault(f memstore.Fault) { b.InjectFaults([]memstore.Fault{f}) }
+
+// InjectFaults arms a plan of one-shot store-call faults (memstore's semantics: the call counter
+// restarts at 0; FaultCommit / AndCommit arm the failing top-level COMMIT).
+func (b *Backend) InjectFaults(fs []memstore.Fault) {
 	b.calls, b.fired, b.commitFired = 0, false, false
-	b.commitArmed = f.Kind == memstore.FaultCommit || f.AndCommit
-	if f.Kind == memstore.FaultCommit {
-		b.fault = nil
-	} else {
-		b.fault = &f
+	b.commitArmed = false
+	b.faults, b.cur = nil, nil
+	for _, f := range fs {
+		if f.Kind == memstore.FaultCommit || f.AndCommit {
+			b.commitArmed = true
+		}
+		if f.Kind != memstore.FaultCommit {
+			b.faults = append(b.faults, f)
+		}
 	}
+	b.faultsFired = make([]bool, len(b.faults))
 }
+
+// nextFault: the planned fault for the current call number, if any (one-shot).
+func (b *Backend) nextFault() *memstore.Fault {
+	for i := range b.faults {
+		if !b.faultsFired[i] && b.faults[i].At == b.calls {
+			b.faultsFired[i] = true
+			b.fired = true
+			return &b.faults[i]
+		}
+	}
+	return nil
+}
+
 func (b *Backend) ClearFault() {
-	b.fault = nil
+	b.faults, b.faultsFired, b.cur = nil, nil, nil
 	b.calls = 0
 	b.commitArmed = false
 	b.Srv.ClearFaults()
@@ -384,9 +408,9 @@ func (s *tstore) enter(method, args string) int {
 	b.callRanges = append(b.callRanges, [2]int{lo, lo})
 	b.curCall = idx
 	b.calls++
-	if b.fault != nil && !b.fired && b.calls == b.fault.At {
-		b.fired = true
-		switch b.fault.Kind {
+	b.cur = b.nextFault()
+	if b.cur != nil {
+		switch b.cur.Kind {
 		case memstore.FaultDeadlock:
 			b.Srv.InjectFault(1, "deadlock")
 		case memstore.FaultCancel:
@@ -394,6 +418,8 @@ func (s *tstore) enter(method, args string) int {
 				b.cancel()
 			}
 		default:
+			// generic error; also "ik-conflict": the statement fails (the SQL transaction is aborted, as a
+			// unique violation would do) and the decorator answers ErrIdempotencyKeyConflict
 			b.Srv.InjectFault(1, "error")
 		}
 	}
@@ -411,8 +437,14 @@ func (s *tstore) leave(idx int, err error) error {
 		}
 	}
 	// a store-call fault armed for this call that no statement consumed must not leak into the next call
-	if b.fault != nil && b.fired && b.calls == b.fault.At {
+	if b.cur != nil {
 		b.Srv.ClearFaults()
+		if b.cur.Kind == memstore.FaultIKConflict && err != nil && (isInjectedPg(err) || errors.Is(err, memstore.ErrInjected)) {
+			b.cur = nil
+			b.trace[idx].E = "ik-conflict"
+			return ledgerstore.NewErrIdempotencyKeyConflict("")
+		}
+		b.cur = nil
 	}
 	if err != nil && isInjectedPg(err) {
 		// the controller sees a generic store error; keep memstore's sentinel in the chain so that
@@ -454,12 +486,12 @@ func (s *tstore) settle(ctx context.Context) {
 func (s *tstore) Commit(ctx context.Context) error {
 	idx := s.enter("Commit", "")
 	b := s.b
-	if !(b.fault != nil && b.fired && b.calls == b.fault.At && b.fault.Kind == memstore.FaultCancel) {
+	if !(b.cur != nil && b.cur.Kind == memstore.FaultCancel) {
 		// (cancelled right at the Commit: database/sql's Commit checks the context first and answers
 		// context.Canceled unless the background rollback already ran — the contract's answer)
 		s.settle(ctx)
 	}
-	if b.commitArmed && !b.commitFired && s.depth == 0 && s.isTx() && !(b.fault != nil && b.fired && b.calls == b.fault.At) {
+	if b.commitArmed && !b.commitFired && s.depth == 0 && s.isTx() && b.cur == nil {
 		// failing COMMIT: the connection dies at COMMIT, the server rolls the transaction back
 		b.commitFired = true
 		b.Srv.InjectFault(1, "conn")
@@ -488,7 +520,7 @@ func (s *tstore) Commit(ctx context.Context) error {
 
 func (s *tstore) Rollback(ctx context.Context) error {
 	idx := s.enter("Rollback", "")
-	firedHere := s.b.fault != nil && s.b.fired && s.b.calls == s.b.fault.At && s.b.fault.Kind == memstore.FaultCancel
+	firedHere := s.b.cur != nil && s.b.cur.Kind == memstore.FaultCancel
 	s.settle(ctx)
 	err := s.leave(idx, s.inner.Rollback(ctx))
 	if firedHere {
